@@ -186,6 +186,24 @@ def only_empty_namespaces_dropped(a, b, steps):
         return False
 
 
+def prefix_named_class_spec(rng, spec):
+    """class-typed options whose names are string prefixes of each other (model, model_ema, model_ema2), each with a default
+    that carries init_args: a class change on one of them has to discard exactly that option's stale init_args"""
+    from jsonargparse import lazy_instance
+
+    from vf.fixtures import zoo
+    from vf.gen import types as G
+
+    mk = [lambda: lazy_instance(zoo.SubA, a=rng.randrange(9), b="lz"), lambda: lazy_instance(zoo.SubB, c=0.75, flag=True), lambda: lazy_instance(zoo.SubList, items=[1, 2]), lambda: lazy_instance(zoo.SubReq, need=4)]
+    names = rng.sample(["model", "model_ema", "model_ema2", "mod"], rng.choice([2, 3]))
+    grp = rng.choice(["", "", "opt."])
+    args = [dict(name=grp + n, t=G.CLASS_T, default=rng.choice(mk)(), required=False) for n in names]
+    keep = [a for a in spec["args"] if not a["name"].split(".")[-1].startswith("mod") and not (grp and (a["name"] == "opt" or a["name"].startswith("opt.")))][:2]
+    if grp:
+        keep = [a for a in keep if not a["name"].startswith("opt")]
+    return dict(spec, args=args + keep, sub=None)
+
+
 def channel_family(ch):
     return ch
 
@@ -193,6 +211,9 @@ def channel_family(ch):
 def case(ctx, i, rng):
     mode = "json" if rng.random() < 0.15 else "yaml"
     spec = P.gen_spec(rng, nargs=(1, 5), depth=3 if ctx.tier == "quick" else 4, profile="noany", nested=0.4, cfg=True, mode=mode, defaults=0.6, sub=0.25)
+    if i % 6 == 1:
+        spec = prefix_named_class_spec(rng, spec)
+        ctx.count("st.prefix_named_class_options_with_defaults")
     if c01.has_secret(spec):
         return
     o = call(P.build, spec)
